@@ -993,6 +993,18 @@ func runClientScenario(seed int64) *scenario {
 			if _, dup := caller[k]; dup {
 				continue
 			}
+			if _, dup := caller[http.CanonicalHeaderKey(k)]; dup {
+				continue
+			}
+			clash := false
+			for ek := range caller {
+				if http.CanonicalHeaderKey(ek) == http.CanonicalHeaderKey(k) {
+					clash = true
+				}
+			}
+			if clash {
+				continue
+			}
 			v := g.pick("v1", "http://example.com", "a=b; c=d", "8", "other.example", "chat2", "permessage-deflate")
 			if k == "Host" {
 				v = g.pick("override.example", "h2.example:81", "[::1]:7")
@@ -1121,19 +1133,15 @@ func runClientScenario(seed int64) *scenario {
 		line1 = strings.Replace(line1, "CH=none", "CH=_", 1)
 	}
 	reqStr := string(t.wire)
-	// F9: a caller key in non-canonical capitalisation that names a protocol-owned header slips past
-	// the duplicate-header check and overrides it (the outcome then depends on map iteration order)
-	f9 := false
+	// F9 (fixed): a caller key in any capitalisation that names a protocol-owned header must be refused
+	// before any network activity (Sec-WebSocket-Protocol is allowed when the Dialer requests none)
 	for k := range caller {
 		ck := http.CanonicalHeaderKey(k)
-		if ck != k && (ck == "Upgrade" || ck == "Connection" || strings.HasPrefix(ck, "Sec-Websocket-")) {
-			f9 = true
+		owned := ck == "Upgrade" || ck == "Connection" || ck == "Sec-Websocket-Key" || ck == "Sec-Websocket-Version" ||
+			ck == "Sec-Websocket-Extensions" || (ck == "Sec-Websocket-Protocol" && len(subs) > 0)
+		if owned && dialed > 0 {
+			sc.knownHit("F9-noncanonical-caller-key-overrides", fmt.Sprintf("caller header map %v reached the network", caller))
 		}
-	}
-	if f9 && dialed > 0 {
-		sc.knownHit("F9-noncanonical-caller-key-overrides", fmt.Sprintf("caller header map %v reached the network", caller))
-		sc.tag("f9")
-		return sc
 	}
 	if dialed == 0 || len(t.wire) == 0 {
 		kind := "other"
